@@ -127,27 +127,35 @@ _SV_CLASSES = {}
 
 
 def mk_sv(d):
-    key = repr(d)
+    # three descriptors in four are served by a GENERIC class shared by all state
+    # vectors with the same method set -- Vector(name, items): instances of one
+    # class configured differently, what the rules inspect belongs to the
+    # instance; the others get a class of their own
+    import zlib
+    # (chosen from the name, so that a state vector and its faulty variant agree)
+    generic = zlib.crc32(repr(d['name']).encode()) % 4 != 0
+    key = ('generic', d['issv'], d['name'] is None, d['view'], d['ver']) if generic else repr(d)
     if key not in _SV_CLASSES:
         _SV_CLASSES[key] = _mk_sv_class(d)
-    return _SV_CLASSES[key]()
+    return _SV_CLASSES[key](d)
 
 
 def _mk_sv_class(d):
     issv = d['issv']
     base = dawgie.StateVector if issv else _DuckSV
 
-    def __init__(self):
+    def __init__(self, d):
         if issv:
             dawgie.StateVector.__init__(self)
         else:
             dict.__init__(self)
         self._version_ = dawgie.VERSION(1, 0, 0)
+        self._d_name = d['name']
         for v in d['items']:
             self[v['key']] = mk_value(v)
     ns = {'__init__': __init__}
     if d['name'] is not None:
-        ns['name'] = lambda self: d['name']
+        ns['name'] = lambda self: self._d_name
     elif not issv:
         def name(self):
             raise NotImplementedError()
